@@ -20,7 +20,7 @@ with a user timeout sends (the Drain thread has a gate: the peer reads only when
 when the sender's buffer is full or the call is over - no sleeps).  Awaited reads run on the virtual
 asyncio loop of harness/vloop.py with a hand-fed read transport.
 """
-import asyncio, codecs, os, pty, select, signal, socket, sys, tempfile, termios, threading, time, tty
+import array, asyncio, codecs, fcntl, os, pty, select, signal, socket, sys, tempfile, termios, threading, time, tty
 import pexpect
 import pexpect.pty_spawn, pexpect.fdpexpect, pexpect.popen_spawn, pexpect.socket_pexpect
 from .reclog import RecLog
@@ -307,12 +307,23 @@ class Rig(object):
         done = threading.Event()
         t = None
         if not stalled:
-            fd = self.send_fd
+            fd, pfd, cap = self.send_fd, (self.peer_sock.fileno() if self.peer_sock is not None else None), sock_capacity()
 
             def watch():
+                # full = the peer's queue holds what one send() can put there (measured once per process on a socketpair of
+                # its own); other descriptors: not writable any more.  (Fallback, never needed so far: nothing moves for 0.3 s.)
+                last, since = -1, time.time()
                 while not done.is_set():
                     try:
-                        if not select.select([], [fd], [], 0)[1]:
+                        if pfd is not None:
+                            q = _queued(pfd)
+                            if q >= cap:
+                                break
+                            if q != last:
+                                last, since = q, time.time()
+                            elif q > 0 and time.time() - since > 0.3:
+                                break
+                        elif not select.select([], [fd], [], 0)[1]:
                             break
                     except (OSError, ValueError):
                         break
@@ -542,6 +553,29 @@ def _write_all(fd, data):
             select.select([], [fd], [], 5)
             continue
         view = view[n:]
+
+
+_CAP = []
+
+
+def sock_capacity():
+    """how many bytes one send() puts into an empty socketpair before it would block"""
+    if not _CAP:
+        a, b = socket.socketpair()
+        a.setblocking(False)
+        try:
+            _CAP.append(a.send(b'\0' * (1 << 23)))
+        finally:
+            a.close()
+            b.close()
+    return _CAP[0]
+
+
+def _queued(fd):
+    """bytes waiting to be read on a socket"""
+    buf = array.array('i', [0])
+    fcntl.ioctl(fd, termios.FIONREAD, buf)
+    return buf[0]
 
 
 def _quiet(f):
